@@ -2,7 +2,7 @@
    Model: Mvcc/Model.v ([step], [run cmds := fold_left step]); discipline and declarative
    specifications: Mvcc/Spec.v. Every statement is over ALL command sequences. *)
 From Verif Require Import Mvcc.Model Mvcc.Spec Mvcc.ProofsStore Mvcc.ProofsKey Mvcc.ProofsKstep Mvcc.ProofsShape
-     Mvcc.ProofsStep Mvcc.ProofsRead Mvcc.ProofsLate Mvcc.ProofsMarker Mvcc.ProofsIdem Mvcc.ProofsIdem2 Mvcc.ProofsDef.
+     Mvcc.ProofsStep Mvcc.ProofsRead Mvcc.ProofsLate Mvcc.ProofsMarker Mvcc.ProofsIdem Mvcc.ProofsIdem2 Mvcc.ProofsIdem3 Mvcc.ProofsLockMono Mvcc.ProofsDef Mvcc.ProofsSeq.
 
 (* ---- induction carriers *)
 (* unconditional: keys ascending, write records of every key strictly descending by commit ts *)
@@ -29,10 +29,7 @@ Print Assumptions C12_exclusive_outcome.
 Theorem C12_idempotent : forall cmds c, oracle_ts (cmds ++ [c]) = true -> idem_class c = true ->
   exists r2, step (fst (step (run cmds) c)) c = (fst (step (run cmds) c), r2)
              /\ resp_status r2 = resp_status (snd (step (run cmds) c)).
-Proof.
-  intros cmds c Ho Hc. destruct (oracle_app_wf cmds [c] Ho) as [HW [Hwf _]].
-  eapply step_idem; eassumption.
-Qed.
+Proof. exact seq_idempotent. Qed.
 Print Assumptions C12_idempotent.
 
 (* whole Prewrite requests (any number of mutations, duplicates allowed, optimistic or pessimistic, incl. the
@@ -43,13 +40,46 @@ Theorem C12_idempotent_prewrite : forall cmds ms primary s fu ttl mc ao, s <> ma
   let c := Prewrite ms primary s fu ttl mc ao in
   exists r2, step (fst (step (run cmds) c)) c = (fst (step (run cmds) c), r2)
              /\ resp_status r2 = resp_status (snd (step (run cmds) c)).
-Proof. intros cmds ms primary s fu ttl mc ao Hs. apply prewrite_idem; [apply (run_sorted cmds)|exact Hs]. Qed.
+Proof. exact seq_idempotent_prewrite. Qed.
 Print Assumptions C12_idempotent_prewrite.
 
 Theorem C12_idempotent_pessimistic_lock : forall cmds r,
   step (fst (step (run cmds) (PessLock r))) (PessLock r) = (fst (step (run cmds) (PessLock r)), snd (step (run cmds) (PessLock r))).
-Proof. intros cmds r. destruct (pess_lock_idem (run cmds) r (proj1 (run_sorted cmds))) as [r2 [H E]]. subst r2. exact H. Qed.
+Proof. exact seq_idempotent_pessimistic_lock. Qed.
 Print Assumptions C12_idempotent_pessimistic_lock.
+
+Theorem C12_idempotent_pessimistic_rollback : forall cmds s e ks start fu,
+  let c := PessRollback s e ks start fu in
+  exists r2, step (fst (step (run cmds) c)) c = (fst (step (run cmds) c), r2)
+             /\ resp_status r2 = resp_status (snd (step (run cmds) c)).
+Proof. exact pess_rollback_idem_seq. Qed.
+Print Assumptions C12_idempotent_pessimistic_rollback.
+
+(* every write request as a whole: Prewrite, PessimisticLock, PessimisticRollback, Commit, BatchRollback, Cleanup,
+   ResolveLock (single and TxnInfos form), TxnHeartBeat, CheckTxnStatus (same arguments, incl. the same current_ts;
+   rollback_if_not_exist or not resolving_pessimistic_lock) - whatever it answered, repeating it answers the same
+   (up to the Action of a status check) and leaves the store unchanged. What does NOT hold: see the Examples
+   ex_cts_not_idempotent (resolving_pessimistic_lock without rollback_if_not_exist over an expired pessimistic lock:
+   rolled back, then TxnNotFound - as in TiKV) and ex_cts_moving_current_ts (a later current_ts is another request). *)
+Theorem C12_idempotent_every_write_request : forall cmds c, oracle_ts (cmds ++ [c]) = true -> idem_class_all c = true ->
+  exists r2, step (fst (step (run cmds) c)) c = (fst (step (run cmds) c), r2)
+             /\ resp_status r2 = resp_status (snd (step (run cmds) c)).
+Proof. exact idem_all_seq. Qed.
+Print Assumptions C12_idempotent_every_write_request.
+
+(* ---- what a reader's status check / the owner's heartbeat pushed on a lock survives the owner's later requests:
+   over any step that keeps the lock with the same owner, ttl does not decrease and min_commit_ts of a primary lock
+   does not decrease, unless the step is the owner's own PessimisticLock request (a re-lock with a larger for-update ts
+   writes the request's ttl / min_commit_ts, as TiKV does: ex_relock_exception); a commit below the lock's
+   min_commit_ts is refused and changes nothing *)
+Theorem C12_lock_fields_monotone : forall cmds c k, lock_mono_ok (run cmds) (fst (step (run cmds) c)) c k = true.
+Proof. exact lock_fields_monotone_seq. Qed.
+Print Assumptions C12_lock_fields_monotone.
+
+Theorem C12_commit_below_min_commit_refused : forall st keys s c, commit_must_be_refused st keys s c = true ->
+  exists e, step st (Commit keys s c) = (st, RErr (Some e)).
+Proof. exact commit_below_min_commit_refused. Qed.
+Print Assumptions C12_commit_below_min_commit_refused.
 
 (* ---- a prewrite arriving after the transaction's commit or rollback record is rejected and changes
    nothing, as long as no GC with safe point >= start ran in between *)
@@ -77,19 +107,12 @@ Theorem C12_rollback_leaves_marker : forall cmds,
         rolled_back (fst (step st (CheckTxnStatus k s caller cur rine rp))) k s = true) /\
   (forall s0 e0 s k l, lock_of st k = Some l -> l_start l = s -> in_range s0 e0 k = true ->
         rolled_back (fst (step st (ResolveLock s0 e0 s 0))) k s = true /\ lock_of (fst (step st (ResolveLock s0 e0 s 0))) k = None).
-Proof.
-  intros cmds st. destruct (run_sorted cmds) as [Hs _]. fold st in Hs. repeat split.
-  - intros keys s H k Hk. apply rollback_leaves_marker; assumption.
-  - intros k s cur H. apply cleanup_leaves_marker; assumption.
-  - intros k s caller cur rine rp a H Ha. eapply cts_leaves_marker; eassumption.
-  - apply (resolve_rollback_leaves_marker st s0 e0 s k l Hs); assumption.
-  - apply (resolve_rollback_leaves_marker st s0 e0 s k l Hs); assumption.
-Qed.
+Proof. exact seq_rollback_leaves_marker. Qed.
 Print Assumptions C12_rollback_leaves_marker.
 
 Theorem C12_commit_ok_committed : forall cmds keys s c, snd (step (run cmds) (Commit keys s c)) = RErr None ->
   forall k, In k keys -> committed (fst (step (run cmds) (Commit keys s c))) k s = true.
-Proof. intros cmds keys s c. apply commit_ok_committed. apply (run_sorted cmds). Qed.
+Proof. exact seq_commit_ok_committed. Qed.
 Print Assumptions C12_commit_ok_committed.
 
 (* ---- reads: the answer of Get is the declarative one - the lock blocks iff start <= ts, op in {Put,Del},
@@ -133,14 +156,7 @@ Print Assumptions C12_rc_ignores_locks.
 (* ---- DeleteRange removes every row of the keys of [s,e) and nothing else *)
 Theorem C12_delete_range : forall cmds s e k,
   get_ks (fst (step (run cmds) (DeleteRange s e))) k = if in_range s e k then empty_ks else get_ks (run cmds) k.
-Proof.
-  intros cmds s e k. destruct (run_sorted cmds) as [Hs _]. cbn [step fst]. rewrite map_range_get by exact Hs.
-  destruct (in_range s e k); cbn [andb]; [|reflexivity].
-  destruct (existsb (fun kv => fst kv =? k) (run cmds)) eqn:Ex; [reflexivity|].
-  apply get_ks_absent; [exact Hs|]. intros Hin. apply in_map_iff in Hin. destruct Hin as [kv [Ek Hin]].
-  assert (existsb (fun kv0 => fst kv0 =? k) (run cmds) = true); [|congruence].
-  apply existsb_exists. exists kv. split; [exact Hin|apply N.eqb_eq; exact Ek].
-Qed.
+Proof. exact seq_delete_range. Qed.
 Print Assumptions C12_delete_range.
 
 (* ---- GC *)
@@ -148,11 +164,7 @@ Theorem C12_gc_refuses_lock : forall st s e sp,
   (snd (step st (GC s e sp)) = RErr (Some (EAbort AGcLock)) <-> gc_refused st s e sp = true)
   /\ (gc_refused st s e sp = true -> fst (step st (GC s e sp)) = st)
   /\ (gc_refused st s e sp = false -> snd (step st (GC s e sp)) = RErr None).
-Proof.
-  intros. unfold gc_refused. cbn [step]. destruct (existsb (gc_blocked sp) (keys_in_range st s e)); cbn [fst snd].
-  - repeat split; auto; discriminate.
-  - repeat split; auto; discriminate.
-Qed.
+Proof. exact seq_gc_refuses_lock. Qed.
 Print Assumptions C12_gc_refuses_lock.
 
 Theorem C12_gc_preserves_reads : forall cmds s e sp k t resolved,
@@ -208,4 +220,39 @@ Example ex_bad_not_disciplined : oracle_ts ex_bad = false
   /\ committed (run ex_bad) 1 (T 1) = true /\ rolled_back (run ex_bad) 1 (T 1) = true.
 Proof. vm_compute. repeat split. Qed.
 Example ex_gc : gc_refused (run ex_cmds) 0 0 (T 9) = false /\ gc_refused (run (firstn 5 ex_cmds)) 0 0 (T 9) = true.
+Proof. vm_compute. split; reflexivity. Qed.
+
+(* ---- idempotence: what does not hold / why the side conditions are there *)
+Definition pl1 (s fu ttl mc : N) : cmd := PessLock (mkPessReq [(1, false)] 1 s fu ttl mc false false false false true).
+Example ex_cts_not_idempotent :
+  let st := run [pl1 (T 1) (T 2) 1 0] in
+  let c := CheckTxnStatus 1 (T 1) (T 9) (T 9) false true in
+  snd (step st c) = RStatus 0 0 ATTLExpirePessimisticRollback /\ snd (step (fst (step st c)) c) = RErr (Some ETxnNotFound)
+  /\ idem_class_all c = false.
+Proof. vm_compute. repeat split. Qed.
+Example ex_cts_moving_current_ts :
+  let st := run [put 1 1] in
+  snd (step st (CheckTxnStatus 1 (T 1) (T 9) (T 1) true false)) = RStatus 1 0 ANoAction
+  /\ snd (step st (CheckTxnStatus 1 (T 1) (T 9) (T 9) true false)) = RStatus 0 0 ATTLExpireRollback.
+Proof. vm_compute. split; reflexivity. Qed.
+(* the lock-field exception is needed: the owner's re-lock with a larger for-update ts lowers a heartbeat-extended ttl *)
+Example ex_relock_exception :
+  let st := run [pl1 (T 1) (T 2) 1 0; HeartBeat 1 (T 1) 40] in
+  option_map l_ttl (lock_of st 1) = Some 40
+  /\ option_map l_ttl (lock_of (fst (step st (pl1 (T 1) (T 3) 1 0))) 1) = Some 1.
+Proof. vm_compute. split; reflexivity. Qed.
+(* a pushed min_commit_ts survives the prewrite over the own pessimistic lock, and the commit below it is refused *)
+Example ex_pushed_min_commit_kept :
+  let st := run [pl1 (T 1) (T 2) 9 (T 1 + 1); CheckTxnStatus 1 (T 1) (T 6) (T 3) true false;
+                 Prewrite [mkMut MPut 1 5 AsNone false] 1 (T 1) (T 2) 1 0 false] in
+  option_map l_min_commit (lock_of st 1) = Some (T 6 + 1)
+  /\ step st (Commit [1] (T 1) (T 4)) = (st, RErr (Some (ECommitTsExpired (T 6 + 1)))).
+Proof. vm_compute. split; reflexivity. Qed.
+(* timestamps: the code keeps the lock of a key in the row of version 2^64-1, so 2^64-1 is no usable start / commit ts
+   (on the code a commit at 2^64-1 answers ok and leaves no record: docs/C12.md); in the model, which has no such row
+   collision, the side condition start <> 2^64-1 of C12_idempotent_prewrite is needed: *)
+Example ex_prewrite_at_max_ts_not_idempotent :
+  let st := run [put 1 1; Commit [1] (T 1) (T 2); Prewrite [mkMut MDel 1 0 AsNone false] 1 (T 3) 0 1 0 false; Commit [1] (T 3) max_ts] in
+  let c := Prewrite [mkMut MInsert 1 7 AsNone false] 1 max_ts 0 1 0 false in
+  snd (step st c) = RErrs [None] /\ snd (step (fst (step st c)) c) = RErrs [Some (EAlreadyExist 1)].
 Proof. vm_compute. split; reflexivity. Qed.
